@@ -220,6 +220,12 @@ def tunnel_checks(ctx, rule):
     ok = dcalls == {(("attr", lib, "decompress"), (data,)), (("attr", lib, "decode"), (data, N.selfattr("encoding")))} and \
         {f for f, a in ecalls} == {("attr", lib, "compress"), ("attr", lib, "encode")} and all(a[0] == data for f, a in ecalls)
     ctx.ob(rule, fe, ok, "Compressed: decompress/decode on parse and compress/encode on build, through the same library object", key="Compressed chain")
+    def through(paths, names):
+        rets = [p for p in paths if p.returns]
+        return bool(rets) and all(p.retval is not None and p.retval[0] == "call" and p.retval[1][0] == "attr" and p.retval[1][1] == lib and p.retval[1][2] in names
+                                  and p.retval[2][:1] == (data,) for p in rets)
+    ctx.ob(rule, fe, through(pe, ("compress", "encode")) and through(pd, ("decompress", "decode")),
+           "Compressed: every return of _encode/_decode is the codec's result on the data (no pass-through shortcut on one side only)", key="Compressed no shortcut")
     sel = lambda c: c[0] == "cmp" and c[1] in ("in", "not in") and c[2] == N.selfattr("encoding")
     gdd = {c for p in pd if p.returns and any(e.kind == "CALL" and e["func"][2] == "decompress" for e in p.events) for c in p.guards() if sel(c)}
     ge = {c for p in pe if p.returns and any(e.kind == "CALL" and e["func"][2] == "compress" for e in p.events) for c in p.guards() if sel(c)}
@@ -334,7 +340,7 @@ def run(ctx):
     short = [p for p in pe if p.returns and p.retval == N.const(b"")]
     ctx.ob("C01.R4", fe, all(N.mk_cmp("==", OBJ, N.const("")) in p.guards() for p in short), "the only build-side shortcut is the empty string (an encoded empty string may carry a BOM)", key="StringEncoded shortcut")
     tunnel_checks(ctx, "C01.R4")
-    ctx.floor("C01.R4", 16)
+    ctx.floor("C01.R4", 17)
 
     # ---------------------------------------------------------------- R5
     fi, paths = own_method_paths(ctx, "Rebuild", "_build")
